@@ -312,3 +312,42 @@ add('C09.io_in_init', 'C09', [(CAL, "      # Add input/output operators to the s
     'C09.R8', 'virtual IO operators attached only on the not-resumed path (seeded a1-C09)', allow_error=True)
 add('C09.sorted_data', 'C09', (CAL, "    for data in calibration_dataset:", "    for data in reversed(list(calibration_dataset)):"), 'C09.R3', 'dataset folded in reverse order')
 add('C09.twin_fold', 'C09', (CU, "  return smoothing_factor * w + (1.0 - smoothing_factor) * update", "  return update + smoothing_factor * (w - update)"), (), 'algebraically identical fold', kind='twin')
+
+# ---------------------------------------------------------------------- C13
+DP = 'default_policy.py'
+AM = 'algorithm_manager.py'
+AMA = 'algorithm_manager_api.py'
+add('C13.policy_int_only', 'C13', (NMM, "  if op_quant_config.compute_precision in [\n      _ComputePrecision.INTEGER,\n      _ComputePrecision.FLOAT,\n  ]:", "  if op_quant_config.compute_precision in [\n      _ComputePrecision.INTEGER,\n  ]:"),
+    'C13.R1', 'policy consulted only for INTEGER compute: every FLOAT config is accepted', control=True)
+add('C13.alias_unroll', 'C13', (DP, "      quant_configs = copy.deepcopy(unrolled_configs)\n      if op in policy.keys():\n        quant_configs += policy[op_name]\n      policy[op_name] = quant_configs",
+    "      quant_configs = unrolled_configs\n      if op in policy.keys():\n        quant_configs += policy[op_name]\n      policy[op_name] = copy.deepcopy(quant_configs)"),
+    'C13.R1', 'aliasing in update_default_config_policy: ops inherit the configs of ops listed before them (seeded a2-C13)')
+add('C13.softmax_drq', 'C13', (DP, '    "dynamic_wi4_afp32": ["FULLY_CONNECTED", "EMBEDDING_LOOKUP"],', '    "dynamic_wi4_afp32": ["FULLY_CONNECTED", "EMBEDDING_LOOKUP", "SOFTMAX"],'),
+    'C13.R1', 'policy lists a dynamic-range config for an op that has no weight handling')
+add('C13.weightonly_no_dequant', 'C13', (DP, '      "explicit_dequantize": true,\n      "compute_precision": "FLOAT"\n    },\n    "weightonly_wi4_afp32"', '      "explicit_dequantize": false,\n      "compute_precision": "FLOAT"\n    },\n    "weightonly_wi4_afp32"'),
+    'C13.R1', 'policy accepts FLOAT compute without explicit dequantize: accepted, then the mode table raises')
+add('C13.skip_ignored', 'C13', (AMA, "    if op_quantization_config.skip_checks:\n      return\n", ""), 'C13.R2', 'skip_checks no longer bypasses the checks')
+add('C13.unregistered_ok', 'C13', (AMA, "    if not self.is_op_registered(quantization_algorithm, tfl_op_name):\n      raise ValueError(\n          f\"Unsupported operation {tfl_op_name} for Algorithm:\"\n          f\" {quantization_algorithm}.\"\n      )\n    if quantization_algorithm not in self._config_check_registry:",
+    "    if not self.is_op_registered(quantization_algorithm, tfl_op_name):\n      return\n    if quantization_algorithm not in self._config_check_registry:"),
+    ('C13.R2', 'C13.R1'), 'unregistered operators are accepted')
+add('C13.fcast_bits', 'C13', (FCS, "      op_quant_config.weight_tensor_config.num_bits != 16\n      or op_quant_config.weight_tensor_config.dtype\n      != qtyping.TensorDataType.FLOAT", "      op_quant_config.weight_tensor_config.dtype\n      != qtyping.TensorDataType.FLOAT"),
+    'C13.R1', 'float casting accepts 4- and 8-bit float weights')
+add('C13.zip_len', 'C13', (AM, "        _TFLOpName.EMBEDDING_LOOKUP,\n    ),\n    (\n        float_casting.materialize_fc_conv,", "        _TFLOpName.EMBEDDING_LOOKUP,\n        _TFLOpName.BATCH_MATMUL,\n    ),\n    (\n        float_casting.materialize_fc_conv,"),
+    ('C13.R4',), 'registration tuples of different length (zip drops the last op silently)')
+add('C13.fcast_set', 'C13', (FCS, "    _TFLOpName.EMBEDDING_LOOKUP,\n])", "    _TFLOpName.EMBEDDING_LOOKUP,\n    _TFLOpName.BATCH_MATMUL,\n])"), ('C13.R4', 'C13.R1'), 'float casting check accepts an op with no registered materialiser')
+add('C13.twin_policy_order', 'C13', (DP, '    "static_wi4_ai8": ["FULLY_CONNECTED", "CONV_2D", "INPUT", "OUTPUT"],', '    "static_wi4_ai8": ["CONV_2D", "FULLY_CONNECTED", "OUTPUT", "INPUT"],'),
+    (), 'reordering op names inside a policy entry', kind='twin')
+
+# ---------------------------------------------------------------------- C08
+add('C08.extra_key', 'C08', ('recipes/default_a16w8_recipe.json', '"skip_checks": false', '"skip_checks": false,\n      "execution_mode": "SRQ"'), 'C08.R1', 'default recipe gains an unknown key', control=True)
+add('C08.bad_enum', 'C08', ('recipes/default_af32w8float_recipe.json', '"granularity": "CHANNELWISE"', '"granularity": "PER_CHANNEL"'), ('C08.R1', 'C08.R3'), 'default recipe uses a non-existent granularity name')
+add('C08.except_narrow', 'C08', (RM, "            except ValueError:\n              continue  # Skip the recipe if it is not supported.", "            except KeyError:\n              continue  # Skip the recipe if it is not supported."),
+    ('C08.R2', 'C08.R3'), '"*" rule leaks ValueError for an unsupported (op, config) cell')
+add('C08.a16_softmax', 'C08', (NMM, "      16: qtyping.UniformQuantParams(\n          num_bits=16,\n          quantized_dimension=None,\n          scale=np.array(1.0 / 32768),\n          zero_point=np.array(0),\n      ),\n", ""),
+    'C08.R3', 'softmax/logistic lose their 16-bit fixed range: default_a16w8 raises on such graphs')
+add('C08.skip_vertical', 'C08', (TIG, "    last_producer_rule_idx = len(transformations) - 1\n    if last_producer_rule_idx >= 0:", "    if transformations and transformations_available_for_vertical_optimization:"),
+    'C08.R5', 'vertical optimiser skipped when there is no consumer rule (seeded a2-C08)', control=True)
+add('C08.keep_empty_producer', 'C08', (TIG, "    if producer_trans_rule.consumers:\n      transformations.insert(0, producer_trans_rule)", "    transformations.insert(0, producer_trans_rule)"),
+    'C08.R5', 'producer rule kept even when every consumer was taken over')
+add('C08.qdim_missing', 'C08', ('utils/tfl_flatbuffer_utils.py', "    _TFLOpName.CONV_2D_TRANSPOSE: 0,\n})", "})"), 'C08.R3', 'per-channel dimension of transpose-conv removed: KeyError under the channelwise default recipes')
+add('C08.twin_guard', 'C08', (TIG, "    last_producer_rule_idx = len(transformations) - 1\n    if last_producer_rule_idx >= 0:", "    if transformations:"), (), 'truthiness test of the producer list instead of the index arithmetic', kind='twin')
